@@ -22,6 +22,7 @@ import (
 	"sort"
 	"strconv"
 	"strings"
+	"sync"
 
 	stackage "github.com/JesseCoretta/go-stackage"
 )
@@ -351,10 +352,16 @@ func (r LOp) Context() string { return r[1] }
 
 var errClasses = map[int]error{}
 
+// storeMu guards the lazily filled identity stores of the harness (errClasses, opqStore, chanStore, auxStore):
+// the parallel-query run (parq) builds arguments from 16 goroutines
+var storeMu sync.Mutex
+
 func errOf(n int) error {
 	if n == 0 {
 		return nil
 	}
+	storeMu.Lock()
+	defer storeMu.Unlock()
 	if e, ok := errClasses[n]; ok {
 		return e
 	}
@@ -572,6 +579,8 @@ func wrapCond(c stackage.Condition, form string) any {
 var opqStore = map[[2]int]any{}
 
 func opqOf(cls, id int) any {
+	storeMu.Lock()
+	defer storeMu.Unlock()
 	k := [2]int{cls, id}
 	if v, ok := opqStore[k]; ok {
 		return v
